@@ -13,7 +13,8 @@ import numpy as np
 from . import build
 from .terms import Term, canon, from_json, to_json
 
-BLANK = {"e": "", "F": [], "cleanup": True, "fixed": [], "f": "", "kwargs": [], "results": [], "loaded": [], "cls": "", "msg": "", "args": [], "attributed": False, "disk": []}
+BLANK = {"e": "", "F": [], "cleanup": True, "fixed": [], "f": "", "kwargs": [], "results": [], "loaded": [], "cls": "", "msg": "", "args": [], "attributed": False, "disk": [], "linputs": [], "ldefaults": [], "shapes": [],
+         "storage_in": [], "storage_out": [], "mapspecs_in": [], "mapspecs_out": [], "proc": ""}
 
 
 def ev(**kw) -> dict:
